@@ -74,8 +74,8 @@ impl World {
             In::Start(k) => {
                 let i = n;
                 let (cmd, handle) = match k {
-                    Kind::After => { let (b, h) = Time::<Eff, Ev>::notify_after(Duration::from_secs(2)); (b.then_send(move |o| Ev::Out(i, o)), h) }
-                    Kind::At => { let (b, h) = Time::<Eff, Ev>::notify_at(SystemTime::UNIX_EPOCH + Duration::from_secs(1_700_000_000)); (b.then_send(move |o| Ev::Out(i, o)), h) }
+                    Kind::After => { let (b, h) = Time::<Eff, Ev>::notify_after(vh::when::dur(i)); (b.then_send(move |o| Ev::Out(i, o)), h) }
+                    Kind::At => { let (b, h) = Time::<Eff, Ev>::notify_at(vh::when::at(i)); (b.then_send(move |o| Ev::Out(i, o)), h) }
                 };
                 let id = id_of_debug(&format!("{:?}", handle));
                 self.ts.push(T { kind: k, id, cmd, handle: Some(handle), req: None, clr: None });
